@@ -87,6 +87,15 @@ pub fn apply_model(m: &mut RefStore, op: Op, val_tag: &str, key_len: usize) -> E
             m.restart(true);
             Expect::Res(Res::Ok)
         }
+        // every acknowledged byte is in its file: content-wise a kill inside the process is a restart
+        Op::KillRst => {
+            m.restart(false);
+            Expect::Res(Res::Ok)
+        }
+        Op::KillRstLazy => {
+            m.restart(true);
+            Expect::Res(Res::Ok)
+        }
     }
 }
 
